@@ -8,8 +8,8 @@
    (Exists) neuron with unit weights whose arity is the number of instances of the group.
    Mirrors lnn/symbolic/logic/unary_operator.py:_Quantifier.upward/downward/_fully_quantified_upward/
    _fully_quantified_downward/_get_groupings/_create_neuron/_add_neuron.
-   Modelled as coded: a group's neuron is re-created from the world default when its instance count
-   changes (free-variable path), the quantifier's visible table is what the last upward() stacked, a
+   A group's neuron is resized when its instance count changes and keeps its bounds (after the fix),
+   the quantifier's visible table is what the last upward() stacked, a
    downward() before any upward() of a grounding fails.  Not modelled: bounds written into a quantifier's
    table from outside (parent downward, add_data) -- see the recorded known finding --, downward through a
    quantifier whose operand is itself a quantifier. *)
@@ -46,7 +46,7 @@ Definition fully_quantified (q : qobj) : bool := match qfree q with [] => true |
 (* the bounds a group's neuron holds when upward/downward reaches it with n instances *)
 Definition neuron_bounds (q : qobj) (s : qstate) (g : gnd) (n : nat) : bnd :=
   match qfind (qneu s) g with
-  | Some (a, b) => if (fully_quantified q || Nat.eqb a n)%bool then b else qworld q
+  | Some (a, b) => b       (* a neuron resized to n instances keeps the bounds its grounding had reached *)
   | None => qworld q
   end.
 
@@ -86,8 +86,8 @@ Definition q_down (q : qobj) (s : qstate) (rows : list (gnd * bnd)) : option (qs
                          | Some (a, b) =>
                              let grp := group_rows q rows g in
                              let n := length grp in
-                             let y := if Nat.eqb a n then b else qworld q in
-                             let st' := if Nat.eqb a n then st else QS (qset (qneu st) g (n, qworld q)) (qtab st) in
+                             let y := b in
+                             let st' := if Nat.eqb a n then st else QS (qset (qneu st) g (n, b)) (qtab st) in
                              let new := act_down (qconn q) (unit_np n) y (map snd grp) in
                              Some (st', props ++ combine (map fst grp) new)
                          end
